@@ -19,6 +19,7 @@ import (
 	"strconv"
 	"strings"
 	"sync"
+	"sync/atomic"
 	"testing"
 	"time"
 
@@ -58,6 +59,7 @@ type c40Handler struct {
 	acks   chan c40Ack
 	exited chan struct{}
 	wOff   int // bytes written so far (handler goroutine only)
+	reading int32 // set (atomically) right before a body read is issued
 }
 
 func pat(sid uint32, off int, dir int) byte {
@@ -76,6 +78,37 @@ type c40Rig struct {
 	mu       sync.Mutex
 	handlers map[string][]*c40Handler // by x-sid header
 	started  chan *c40Handler
+	// ConnState hook (public bfe_http.Server field, called on the serve loop): when armed, the next
+	// StateIdle notification - issued from inside closeStream when the last open stream closes - parks
+	// the serve loop until released, so that a handler read can be placed between "stream closed" and
+	// "read notification processed".
+	armed   bool
+	inHook  chan struct{}
+	release chan struct{}
+}
+
+func (r *c40Rig) connState(_ net.Conn, s bfe_http.ConnState) {
+	if s != bfe_http.StateIdle {
+		return
+	}
+	r.mu.Lock()
+	armed := r.armed
+	r.armed = false
+	r.mu.Unlock()
+	if !armed {
+		return
+	}
+	r.inHook <- struct{}{}
+	select {
+	case <-r.release:
+	case <-time.After(c40Watchdog):
+	}
+}
+
+func (r *c40Rig) arm(on bool) {
+	r.mu.Lock()
+	r.armed = on
+	r.mu.Unlock()
 }
 
 func (r *c40Rig) ServeHTTP(w bfe_http.ResponseWriter, req *bfe_http.Request) {
@@ -91,6 +124,7 @@ func (r *c40Rig) ServeHTTP(w bfe_http.ResponseWriter, req *bfe_http.Request) {
 		switch c.op {
 		case "read":
 			buf := make([]byte, c.n)
+			atomic.StoreInt32(&h.reading, 1)
 			n, err := io.ReadFull(req.Body, buf)
 			h.acks <- c40Ack{op: "read", data: buf[:n], n: n, err: err}
 		case "write":
@@ -140,6 +174,7 @@ type c40Stream struct {
 	gotRst     bool
 	mayRst     bool // RST from the server is legitimate (CANCEL after handler return, duplicate SYN)
 	finishing  bool
+	refused    bool  // SYN_STREAM was a bad request (3.2.1): the id is used up, no handler is expected
 	tainted    bool  // outcome of an earlier step on this stream is not fixed by the property: no further verdicts on it
 	declCL     int64 // declared Content-Length, -1 if none
 }
@@ -267,6 +302,9 @@ func (c *c40Case) handle(f bfe_spdy.Frame) {
 		}
 	case *bfe_spdy.SynReplyFrame:
 		st := c.streams[uint32(f.StreamId)]
+		if st != nil && st.refused {
+			return // an error reply (3.2.1 wants a 400) is as good as the reset bfe sends
+		}
 		if st == nil || st.h == nil {
 			c.fail("reply-unknown-stream", "SYN_REPLY for stream %d which has no handler", f.StreamId)
 			return
@@ -276,6 +314,14 @@ func (c *c40Case) handle(f bfe_spdy.Frame) {
 		}
 	case *bfe_spdy.DataFrame:
 		st := c.streams[uint32(f.StreamId)]
+		if st != nil && st.refused {
+			n := int64(len(f.Data))
+			if n > c.sessSend {
+				c.fail("send-over-session-window", "server sent DATA of %d bytes on stream %d but the session window the client granted has only %d left", n, st.id, c.sessSend)
+			}
+			c.sessSend -= n
+			return
+		}
 		if st == nil || st.h == nil {
 			c.fail("data-unknown-stream", "DATA(%d bytes) for stream %d which has no handler", len(f.Data), f.StreamId)
 			return
@@ -581,9 +627,55 @@ func (c *c40Case) stepSyn(s c40Step) {
 		kind = "lower"
 	case s.A == 7:
 		kind = "duplicate"
+	case s.A == 6:
+		kind = "refused"
 	}
 	fin := s.B%4 == 0
 	switch kind {
+	case "refused":
+		// a SYN_STREAM with a valid id that is a bad request (3.2.1). Whatever the answer (bfe resets the
+		// stream), the id has been used: ids below it stay invalid, it cannot be opened again, and frames
+		// for it are frames for a closed stream.
+		id := c.maxID + 2
+		if c.maxID == 0 {
+			id = 1
+		}
+		id += uint32(2 * (s.C % 3))
+		variant := []string{"no-method", "head-with-body", "bad-scheme", "no-host", "no-path"}[s.D%5]
+		tag := fmt.Sprintf("refused-%d", id)
+		c.log("SYN-refused(%d %s)", id, variant)
+		c.flags["refused-syn"] = true
+		st := &c40Stream{id: id, closed: true, clientFin: true, refused: true, tainted: true, mayRst: true, declCL: -1}
+		c.streams[id] = st
+		c.order = append(c.order, id)
+		c.maxID = id
+		f := c.synFrame(id, tag, variant != "head-with-body" && fin)
+		switch variant {
+		case "no-method":
+			f.Headers.Del(":method")
+		case "head-with-body":
+			f.Headers.Set(":method", "HEAD")
+		case "bad-scheme":
+			f.Headers.Set(":scheme", "ftp")
+		case "no-host":
+			f.Headers.Del(":host")
+		case "no-path":
+			f.Headers.Del(":path")
+		}
+		c.write(f)
+		c.round()
+		// should the server have chosen to serve it after all, do not mistake that handler for the next stream's
+		for {
+			select {
+			case h := <-c.rig.started:
+				if h.sid != tag {
+					c.fail("handler-wrong-stream", "handler started for x-sid %q after the refused SYN_STREAM %d", h.sid, id)
+				}
+				continue
+			default:
+			}
+			break
+		}
 	case "valid":
 		id := c.maxID + 2
 		if c.maxID == 0 {
@@ -1079,15 +1171,126 @@ func (c *c40Case) stepSettings(s c40Step) {
 }
 
 func (c *c40Case) stepRst(s c40Step) {
-	st := c.pick(s.A, func(x *c40Stream) bool { return x.h != nil && (!x.closed || s.B%4 == 0) })
+	st := c.pick(s.A, func(x *c40Stream) bool { return (x.h != nil && (!x.closed || s.B%4 == 0)) || (x.refused && s.B%2 == 0) })
 	if st == nil {
 		return
 	}
-	c.log("RST(%d closed=%v busy=%v)", st.id, st.closed, st.busy)
+	if st.refused {
+		c.flags["rst-refused-stream"] = true
+	}
+	c.log("RST(%d closed=%v busy=%v refused=%v)", st.id, st.closed, st.busy, st.refused)
 	c.flags["client-rst"] = true
 	c.closeStream(st)
 	st.wantRst = false
 	c.write(&bfe_spdy.RstStreamFrame{StreamId: bfe_spdy.StreamId(st.id), Status: bfe_spdy.Cancel})
+}
+
+
+// stepRace closes the only open stream (client RST_STREAM, or a stream error provoked by DATA) and lets its
+// handler consume the buffered body bytes while the serve loop is parked inside closeStream (ConnState hook):
+// the read notification then reaches the serve loop after the stream is closed. The consumed bytes are consumed
+// bytes all the same: the session window must be replenished by them.
+func (c *c40Case) stepRace(s c40Step) {
+	open := 0
+	for _, id := range c.order {
+		if !c.streams[id].closed {
+			open++
+		}
+	}
+	st := c.pick(0, func(x *c40Stream) bool {
+		return !x.closed && !x.busy && x.h != nil && x.buffered > 0 && !x.finishing && !x.tainted
+	})
+	if st == nil || open != 1 {
+		return
+	}
+	k := st.buffered
+	if s.B%3 == 0 {
+		k = 1 + s.D%k
+	}
+	how := "client-rst"
+	var f bfe_spdy.Frame = &bfe_spdy.RstStreamFrame{StreamId: bfe_spdy.StreamId(st.id), Status: bfe_spdy.Cancel}
+	if s.A%2 == 1 {
+		if st.clientFin {
+			how = "data-after-fin"
+			f = &bfe_spdy.DataFrame{StreamId: bfe_spdy.StreamId(st.id), Data: make([]byte, 1+s.D%50)}
+		} else {
+			how = "overdraw"
+			f = &bfe_spdy.DataFrame{StreamId: bfe_spdy.StreamId(st.id), Data: make([]byte, st.recvWin+1)}
+		}
+	}
+	c.log("CLOSE-WHILE-READING(%d %s k=%d of %d)", st.id, how, k, st.buffered)
+	c.rig.arm(true)
+	defer c.rig.arm(false)
+	buffered := st.buffered
+	if how == "client-rst" {
+		c.closeStream(st)
+	} else {
+		st.wantRst = true
+	}
+	c.write(f)
+	c.pingID += 2
+	c.write(&bfe_spdy.PingFrame{Id: c.pingID})
+	if c.stop() {
+		return
+	}
+	t := time.NewTimer(c40Watchdog)
+	defer t.Stop()
+	parked := false
+wait:
+	for {
+		select {
+		case <-c.rig.inHook:
+			parked = true
+			break wait
+		case rx := <-c.rx:
+			if rx.err != nil {
+				c.connGone(rx.err)
+				return
+			}
+			c.handle(rx.f)
+			if pf, ok := rx.f.(*bfe_spdy.PingFrame); ok && pf.Id == c.pingID {
+				break wait // the close did not take the serve loop through the hook
+			}
+			if c.stop() {
+				return
+			}
+		case <-t.C:
+			c.inconclusive("watchdog waiting for the serve loop in the ConnState hook")
+			return
+		}
+	}
+	if parked {
+		c.flags["read-after-stream-close"] = true
+		atomic.StoreInt32(&st.h.reading, 0)
+		st.h.cmds <- c40Cmd{op: "read", n: k}
+		// give the handler the time to take the bytes out of the pipe (coverage only, not a verdict)
+		for i := 0; i < 4000 && atomic.LoadInt32(&st.h.reading) == 0; i++ {
+			time.Sleep(50 * time.Microsecond)
+		}
+		time.Sleep(time.Millisecond)
+		c.rig.release <- struct{}{}
+		a, ok := c.waitAck(st.h, "read")
+		if !ok {
+			return
+		}
+		if a.n > buffered || string(a.data) != string(patBytes(st.id, int(st.consumed), a.n, 0)) {
+			want := patBytes(st.id, int(st.consumed), a.n, 0)
+			d := 0
+			for d < a.n && d < len(want) && a.data[d] == want[d] {
+				d++
+			}
+			c.fail("handler-got-wrong-bytes", "handler of stream %d read %d bytes (of %d buffered) at offset %d that differ from the accepted DATA: first difference at +%d, got % x want % x (err %v)", st.id, a.n, buffered, st.consumed, d, c39Head(a.data[d:], 8), c39Head(want[d:], 8), a.err)
+			return
+		}
+		if a.n > 0 {
+			c.flags["consumed-after-stream-close"] = true
+		}
+		st.consumed += int64(a.n)
+		c.consumed += int64(a.n)
+		st.creditOpt += int64(a.n)
+		for c.next(t) {
+		}
+	}
 }
 
 // ---------- one case ----------
@@ -1106,8 +1309,8 @@ func c40Run(tb ev.TB, rec *ev.Rec, script []c40Step) {
 	pc0, ps0 := c40PanicConn.Get(), c40PanicStream.Get()
 
 	cliEnd, srvEnd := net.Pipe()
-	rig := &c40Rig{handlers: map[string][]*c40Handler{}, started: make(chan *c40Handler, 256)}
-	hs := &bfe_http.Server{ReadTimeout: 120 * time.Second, GracefulShutdownTimeout: time.Second}
+	rig := &c40Rig{handlers: map[string][]*c40Handler{}, started: make(chan *c40Handler, 256), inHook: make(chan struct{}, 1), release: make(chan struct{}, 1)}
+	hs := &bfe_http.Server{ReadTimeout: 120 * time.Second, GracefulShutdownTimeout: time.Second, ConnState: rig.connState}
 	sc := bfe_spdy.VerifHandleConn(&bfe_spdy.Server{}, hs, srvEnd, rig)
 	if sc == nil {
 		tb.Fatalf("handleConn returned nil")
@@ -1146,6 +1349,8 @@ func c40Run(tb ev.TB, rec *ev.Rec, script []c40Step) {
 		switch s.Op {
 		case "misc":
 			c.stepMisc(s)
+		case "race":
+			c.stepRace(s)
 		case "syn":
 			c.stepSyn(s)
 		case "data":
@@ -1224,7 +1429,7 @@ func c40Run(tb ev.TB, rec *ev.Rec, script []c40Step) {
 
 	nt := c.flags["opened"] && (c.flags["overdraw-stream"] || c.flags["overdraw-session"] || c.flags["data-half-closed"] || c.flags["data-closed"] ||
 		c.flags["data-never-opened"] || c.flags["invalid-syn-even"] || c.flags["invalid-syn-lower"] || c.flags["invalid-syn-duplicate"] ||
-		c.flags["write-blocked-by-window"] || c.flags["settings-change-live"])
+		c.flags["write-blocked-by-window"] || c.flags["settings-change-live"] || c.flags["refused-syn"] || c.flags["consumed-after-stream-close"])
 	var classes []string
 	for k := range c.flags {
 		classes = append(classes, k)
@@ -1245,7 +1450,7 @@ func c40Run(tb ev.TB, rec *ev.Rec, script []c40Step) {
 
 func genC40Script(rt *rapid.T, maxSteps int) []c40Step {
 	n := rapid.IntRange(4, maxSteps).Draw(rt, "nSteps")
-	ops := []string{"syn", "syn", "syn", "data", "data", "data", "data", "data", "read", "read", "read", "read", "write", "write", "write", "finish", "wu", "wu", "settings", "rst", "ping", "misc", "misc"}
+	ops := []string{"syn", "syn", "syn", "data", "data", "data", "data", "data", "read", "read", "read", "read", "write", "write", "write", "finish", "wu", "wu", "settings", "rst", "ping", "misc", "misc", "race", "race"}
 	script := []c40Step{{Op: "syn", A: 0, B: rapid.IntRange(0, 7).Draw(rt, "firstFin"), C: rapid.IntRange(0, 2).Draw(rt, "firstGap")}}
 	for i := 1; i < n; i++ {
 		s := c40Step{Op: rapid.SampledFrom(ops).Draw(rt, "op")}
@@ -1262,6 +1467,8 @@ func genC40Script(rt *rapid.T, maxSteps int) []c40Step {
 				s.A = 8
 			case k >= 22 && k <= 25:
 				s.A = 7
+			case k >= 26 && k <= 29:
+				s.A = 6
 			default:
 				s.A = 0
 			}
@@ -1295,6 +1502,17 @@ func TestC40(t *testing.T) {
 		// window driven negative by a SETTINGS decrease, then raised again (SETTINGS / WINDOW_UPDATE): legal per 2.6.8
 		[]c40Step{{Op: "syn", B: 1}, {Op: "write", A: 0, B: 0, D: 199}, {Op: "settings", A: 2}, {Op: "settings", A: 6}},
 		[]c40Step{{Op: "syn", B: 1}, {Op: "write", A: 0, B: 0, D: 199}, {Op: "settings", A: 2}, {Op: "wu", A: 4, B: 1, D: 500}})
+	fixed = append(fixed,
+		// a refused SYN_STREAM uses its id up: lower id, same id again, late RST_STREAM for it
+		[]c40Step{{Op: "syn", B: 1}, {Op: "syn", A: 6, C: 2, D: 1}, {Op: "syn", A: 8}},
+		[]c40Step{{Op: "syn", A: 6, C: 1, D: 0}, {Op: "syn", A: 8}},
+		[]c40Step{{Op: "syn", B: 1}, {Op: "syn", A: 6, D: 0}, {Op: "syn", A: 7}, {Op: "syn", B: 1}},
+		[]c40Step{{Op: "syn", B: 1}, {Op: "syn", A: 6, D: 3}, {Op: "rst", A: 1, B: 0}, {Op: "ping"}, {Op: "syn", B: 1}},
+		[]c40Step{{Op: "syn", A: 6, D: 2}, {Op: "data", A: 7, D: 3}, {Op: "syn", A: 6, D: 4}, {Op: "syn", A: 7}},
+		// bytes consumed by the handler after the stream was closed still replenish the session window
+		[]c40Step{{Op: "syn", B: 1}, {Op: "data", A: 0, B: 1, C: 1, D: 999}, {Op: "read", A: 0, B: 0, D: 399}, {Op: "race", A: 0, B: 1}, {Op: "syn", B: 1}},
+		[]c40Step{{Op: "syn", B: 1}, {Op: "data", A: 0, B: 1, C: 1, D: 150}, {Op: "race", A: 1, B: 1}},
+		[]c40Step{{Op: "syn", B: 1}, {Op: "data", A: 0, B: 1, C: 0, D: 150}, {Op: "race", A: 1, B: 0, D: 7}})
 	for _, sc := range fixed {
 		c40Run(t, rec, sc)
 	}
